@@ -4,8 +4,19 @@ The checks must stay silent on them: a VIOLATION is a false alarm of the rule (t
 import json
 import sys
 
+import os, re
 pid = sys.argv[1]
 n = sys.argv[2] if len(sys.argv) > 2 else "4"
+first = int(sys.argv[3]) if len(sys.argv) > 3 else 1
+done = []
+bd = "/verif/benign"
+if first > 1 and os.path.isdir(bd):
+    for name in sorted(os.listdir(bd)):
+        if name.startswith(pid + "-b") and os.path.exists(os.path.join(bd, name, "patch.diff")):
+            patch = open(os.path.join(bd, name, "patch.diff")).read()
+            fn = sorted(set(re.findall(r"^@@.*@@\s*(?:async )?(?:def|class)\s+(\w+)", patch, flags=re.M)))
+            hl = open(os.path.join(bd, name, "notes.md")).read().strip().splitlines()[0].lstrip("# ").strip() if os.path.exists(os.path.join(bd, name, "notes.md")) else ""
+            done.append(f"  - ({', '.join(fn)}): {hl[:150]}")
 for l in open('/verif/properties.jsonl'):
     p = json.loads(l)
     if p['id'] == pid:
@@ -25,7 +36,8 @@ It must hold: {p['quantifier']['text']}
 Where the code that is meant to make it hold lives ({', '.join(p['anchors']['files'])}):
 {mech}
 
-WHAT TO PRODUCE: {n} different changes, each in its own directory {out}/b1, {out}/b2, ... containing:
+{("ALREADY DONE by an earlier round (do NOT repeat these or close variations; pick OTHER functions among those named above and their direct helpers / callers / data-model classes, and other kinds of change):" + chr(10) + chr(10).join(done) + chr(10)) if done else ""}
+WHAT TO PRODUCE: {n} different changes, each in its own directory {out}/b{first}, {out}/b{first + 1}, ... containing:
   * patch.diff — `git diff` of the change against the worktree HEAD (must apply with `git apply` to a clean checkout); touch only files under esrally/.
   * demo.py    — a small self-contained program that exercises the changed code paths of the real rally code on several inputs (including the boundary cases the property talks about) and PASSES (exit 0) both with and without the change, printing the observed behaviour; it should compare behaviour, so that it WOULD fail if the change had altered what the property promises. Run as `cd <checkout> && PYTHONPATH=<checkout> /venv/bin/python demo.py`; no hard-coded {wt}.
   * notes.md   — 5-10 lines: what the change is, why a maintainer would make it, and your argument why the property (every clause of it) still holds afterwards.
